@@ -355,7 +355,63 @@ def judge_span(c, rec):
     rec.case(c, bool(nt), cls + ["dst-inside=%d" % nt])
 
 
-JUDGES = {"pair-step": judge_step, "pair-predict": judge_pair_predict, "span": judge_span}
+# ------------------------------------------------------------------ CalTRACK hourly spans
+CT_BASE = {"family": "caltrack", "profile": "caltrack", "start_day": 0, "n": 365, "noise_seed": 21, "noise": 0.05,
+           "usage": {"base": 20.0, "hs": 1.2, "hb": 50.0, "cs": 0.8, "cb": 68.0}, "weekend_shift": 0.2, "season_shift": 0.0, "south": False,
+           "electric": True, "ghi": False}
+
+
+@st.composite
+def caltrack_cases(draw):
+    # spans of a day to fourteen months, starting on any hour: a span longer than a year, or a year that starts inside a month, meets
+    # the same calendar month in two separate stretches
+    return {"kind": "caltrack-span", "tz": draw(st.sampled_from(["America/Chicago", "Europe/Berlin"])),
+            "start_h": draw(st.integers(0, 24 * 500)), "hours": draw(st.one_of(st.integers(24, 72), st.integers(24 * 20, 24 * 120), st.integers(24 * 366, 24 * 430))),
+            "observed": draw(st.booleans()), "seed": draw(st.integers(0, 2 ** 16)), "entry": draw(st.sampled_from(["frame", "from_series"]))}
+
+
+def judge_caltrack_span(c, rec):
+    from opendsm import eemeter as em
+
+    from ..gen import zoo
+
+    b = dict(CT_BASE, tz=c["tz"])
+    m, _ = zoo.fitted(b)
+    idx = pd.date_range(pd.Timestamp("2018-02-01", tz="UTC") + pd.Timedelta(hours=c["start_h"]), periods=c["hours"], freq="h").tz_convert(c["tz"])
+    df = hourly_frame_on(idx, seed=c["seed"], observed=True, ghi=False)
+    with contextlib.redirect_stdout(io.StringIO()):
+        try:
+            if c["entry"] == "from_series":
+                data = em.HourlyCaltrackReportingData.from_series(df["observed"] if c["observed"] else None, df["temperature"], is_electricity_data=True)
+            else:
+                data = em.HourlyCaltrackReportingData(df if c["observed"] else df.drop(columns=["observed"]), is_electricity_data=True)
+        except ValueError as e:
+            if "must be atleast hourly" not in str(e):
+                raise
+            # the class could not tell the frequency of the frame: an input it refuses (acceptance is not this property's subject)
+            rec.note("caltrack-data-class-rejects-frame")
+            rec.case(c, False, ["sub=caltrack-span", "input-rejected"])
+            return
+        out = m.predict(data)
+    dd = data.df
+    key = "span/caltrack"
+    if not out.index.equals(dd.index):
+        rec.violation(key + "/rows", c, "predict returned %d rows, the data object has %d" % (len(out), len(dd)))
+    elif out.index.has_duplicates or not out.index.is_monotonic_increasing:
+        rec.violation(key + "/order", c, "rows not unique and increasing")
+    else:
+        P = np.isfinite(out["predicted"].values.astype(float))
+        want = np.isfinite(dd["temperature"].values.astype(float))
+        if not np.array_equal(P, want):
+            i = int(np.nonzero(P != want)[0][0])
+            rec.violation(key + "/not-finite", c, "%d rows with a finite temperature and no finite prediction (or the reverse), first at %s" % (int((P != want).sum()), out.index[i]))
+    months = pd.Series(idx.month.values)
+    stretches = int((months != months.shift()).sum())
+    rec.case(c, stretches > months.nunique(), ["sub=caltrack-span", "tz=" + c["tz"], "entry=" + c["entry"], "observed=%d" % c["observed"],
+                                               "a-month-in-two-stretches=%d" % (stretches > months.nunique())])
+
+
+JUDGES = {"pair-step": judge_step, "pair-predict": judge_pair_predict, "span": judge_span, "caltrack-span": judge_caltrack_span}
 
 
 def judge(c, rec):
@@ -388,6 +444,8 @@ def shards(tier, seed):
         for i in range(n):
             out.append({"sub": "span", "family": fam, "n": (30 if fam == "hourly" else 120) if q else (300 if fam == "hourly" else 1500),
                         "seed": mix(seed, ID, fam, i)})
+    for i in range(2):
+        out.append({"sub": "caltrack-span", "n": 6 if q else 60, "seed": mix(seed, ID, "caltrack", i)})
     return out
 
 
@@ -402,6 +460,9 @@ def run_shard(spec, rec):
         for place in spec.get("places", [[1, 1]]):
             for p in todo:
                 run_judge(judge, dict(p, mode=spec["mode"], place=place), rec)
+        return
+    if spec["sub"] == "caltrack-span":
+        explore(caltrack_cases(), judge, rec, max_examples=spec["n"], seed=spec["seed"], shrink=False)
         return
     explore(span_cases(family=spec["family"]), judge, rec, max_examples=spec["n"], seed=spec["seed"], shrink=spec["family"] != "hourly")
 
